@@ -302,5 +302,6 @@ func gen(g *hx.Gen) {
 	genAsym(g)
 	genValueBounds(g)
 	genHarden(g)
+	genCapRatio(g)
 	genSort(g)
 }
